@@ -1205,6 +1205,16 @@ class CompilerPassGatherCode(CompilerPass):
                         ),
                     }
                 )
+            # which emitted function (or "" = main code) every instruction belongs to
+            pos = 0
+            for fname in sorted(self.data.functions.keys()):
+                func = self.data.functions[fname]
+                if func.is_constexpr:
+                    continue
+                if fname == "" or func.is_called:
+                    for rec in recs[pos : pos + len(func.code)]:
+                        rec["region"] = fname
+                    pos += len(func.code)
             self.data.result["_verif"] = {
                 "instructions": recs,
                 "allocated": list(self.used_registers),
